@@ -462,8 +462,8 @@ func depths(all bool) []int {
 		}
 		return append(d, 200, 500, 1000)
 	}
-	d = append(d, 1, 2, 3, 10, 50)
-	for i := 90; i <= 110; i++ {
+	d = append(d, 1, 2, 3, 50)
+	for i := docDepth - 3; i <= docDepth+4; i++ {
 		d = append(d, i)
 	}
 	return append(d, 130, 200, 1000)
